@@ -37,7 +37,7 @@ pub fn run_case<C: Serialize>(property: &str, sub: &str, case: &C, check: impl F
             Err(msg) => Err(Fail { sig: format!("{}/{}/harness-panic", property, sub), what: format!("unexpected panic: {}", msg) }),
         };
         if let Err(f) = r {
-            let tolerated = ctx.handle_fail(&format!("fuzz-{}", sub), &f, case);
+            let tolerated = ctx.handle_fail(sub, &f, case);
             if !tolerated {
                 let path = ctx.violations.last().map(|v| v.replay.clone()).unwrap_or_default();
                 eprintln!("VIOLATION property={} replay={}", property, path);
